@@ -1,6 +1,6 @@
 //@ tu: libxcm/tp/tcp/tconnect.c
 //@ enforce: track_create
-//@ replace: timer_mgr_schedule track_connect_next
+//@ replace: timer_mgr_schedule track_connect_next dup_ips
 //@ flags: --object-bits 10
 //@ props: C13 C08 C04
 //@ expect: postcondition>=7 canary=3
